@@ -5,6 +5,7 @@ package main
 
 import (
 	"bytes"
+	"encoding/json"
 	"flag"
 	"fmt"
 	"go/ast"
@@ -23,9 +24,24 @@ var (
 	outDir = flag.String("out", "/verif/coq/Gen", "output directory")
 )
 
+// genFailure is what die() raises: the translator piece that is running cannot translate the current
+// sources. Pieces are independent: a failing piece removes ITS outputs (so that exactly the theorems that
+// depend on them stop compiling) and the others still run.
+type genFailure struct{ msg string }
+
+var (
+	current  string                  // name of the generator that is running
+	outputs  = map[string][]string{} // generator -> files it wrote in this run
+	initDone bool
+)
+
 func die(format string, args ...interface{}) {
-	fmt.Fprintf(os.Stderr, "gen: "+format+"\n", args...)
-	os.Exit(2)
+	msg := fmt.Sprintf(format, args...)
+	if !initDone || current == "" {
+		fmt.Fprintf(os.Stderr, "gen: %s\n", msg)
+		os.Exit(2)
+	}
+	panic(genFailure{msg})
 }
 
 type pkgFiles struct {
@@ -205,6 +221,9 @@ func coqString(s string) string {
 
 // writeIfChanged keeps timestamps stable so make does not rebuild needlessly.
 func writeIfChanged(name string, content []byte) {
+	if current != "" {
+		outputs[current] = append(outputs[current], name)
+	}
 	path := filepath.Join(*outDir, name)
 	old, err := os.ReadFile(path)
 	if err == nil && bytes.Equal(old, content) {
@@ -240,14 +259,59 @@ func register(name string, f func()) {
 	generators[name] = f
 }
 
+func runOne(name string) (failed string) {
+	defer func() {
+		if r := recover(); r != nil {
+			if gf, ok := r.(genFailure); ok {
+				failed = gf.msg
+				return
+			}
+			failed = fmt.Sprint("panic: ", r)
+		}
+	}()
+	current = name
+	generators[name]()
+	return ""
+}
+
 func main() {
 	flag.Parse()
+	initDone = true
 	names := make([]string, 0, len(generators))
 	for n := range generators {
 		names = append(names, n)
 	}
 	sort.Strings(names)
+	// which files each generator wrote the last time it succeeded
+	known := map[string][]string{}
+	outPath := filepath.Join(*outDir, "outputs.json")
+	if b, err := os.ReadFile(outPath); err == nil {
+		_ = json.Unmarshal(b, &known)
+	}
+	failures := map[string]string{}
 	for _, n := range names {
-		generators[n]()
+		outputs[n] = nil
+		if msg := runOne(n); msg != "" {
+			failures[n] = msg
+			fmt.Fprintf(os.Stderr, "gen: %s: %s\n", n, msg)
+			// remove what this piece produced before (and in this run), so that its dependants break loudly
+			for _, f := range append(known[n], outputs[n]...) {
+				os.Remove(filepath.Join(*outDir, f))
+			}
+			continue
+		}
+		known[n] = outputs[n]
+	}
+	current = ""
+	if b, err := json.MarshalIndent(known, "", " "); err == nil {
+		old, _ := os.ReadFile(outPath)
+		if !bytes.Equal(old, b) {
+			_ = os.WriteFile(outPath, b, 0o644)
+		}
+	}
+	fb, _ := json.MarshalIndent(failures, "", " ")
+	_ = os.WriteFile(filepath.Join(*outDir, "failures.json"), fb, 0o644)
+	if len(failures) > 0 {
+		os.Exit(3) // some pieces failed; the others are up to date
 	}
 }
